@@ -51,6 +51,9 @@ EXTENSIONS = [
     ('rule_cfg', {'needs_cfg': FLAG}),
     ('type', {'type': 'even'}),
     ('coercer', {'coerce': 'c_int'}),
+    ('coercer_chain', {'coerce': ['c_id', 'c_int']}),
+    ('renamer', {'rename_handler': 'c_key'}),
+    ('renamer_chain', {'rename_handler': ['c_id', 'c_key']}),
     ('setter', {'default_setter': 's_one'}),
     ('checker', {'check_with': 'k_odd'}),
 ]
@@ -65,7 +68,7 @@ def plant(rng, schema):
     if not positions:
         return None
     kind, ext = EXTENSIONS[rng.randrange(len(EXTENSIONS))]
-    cands = [x for x in positions if not (x[2] == 'of' and kind in ('coercer', 'setter'))]
+    cands = [x for x in positions if not (x[2] == 'of' and kind in ('coercer', 'setter', 'coercer_chain', 'renamer', 'renamer_chain'))]
     if not cands:
         return None
     path, rules, ctxk = cands[rng.randrange(len(cands))]
@@ -172,7 +175,12 @@ def leak_after_use(ctx):
     """after the subclass has validated its schema, the base class must still reject it (cache!)"""
     sch = {'f': {'type': 'dict', 'valuesrules': {'is_odd': True}}}
     Validator.clear_caches()
-    OddOnly(copy.deepcopy(sch))
+    try:
+        OddOnly(copy.deepcopy(sch))
+    except Exception as e:
+        ctx.fail('C16 oracle: the subclass rejects its own rule below valuesrules (%s)' % type(e).__name__, {'schema': repr(sch)},
+                 detail=str(e)[:300])
+        return
     try:
         Validator(copy.deepcopy(sch))
         ctx.fail('C16 oracle: the base class accepts a subclass-only rule after the subclass used it',
@@ -181,7 +189,12 @@ def leak_after_use(ctx):
         pass
     Validator.clear_caches()
     sch2 = {'f': {'type': 'dict', 'valuesrules': {'type': 'even'}}}
-    XValidator(copy.deepcopy(sch2))
+    try:
+        XValidator(copy.deepcopy(sch2))
+    except Exception as e:
+        ctx.fail('C16 oracle: the subclass rejects its own type below valuesrules (%s)' % type(e).__name__, {'schema': repr(sch2)},
+                 detail=str(e)[:300])
+        return
     try:
         Validator(copy.deepcopy(sch2))
         ctx.fail('C16 oracle: the base class accepts a subclass-only type after the subclass used it', {'schema': repr(sch2)})
